@@ -271,6 +271,22 @@ pub fn rcb_handler(a: &[&str]) -> String {
     with_oracle(shared.map(|b| hex_or_dash(&b)).unwrap_or_else(|_| "refused".into()), verdict)
 }
 
+/// PNU <hex>: a PathBuf / &Path / Box<Path> built from raw OS-string bytes (possibly not UTF-8): refused, or the text string
+pub fn pnu_handler(a: &[&str]) -> String {
+    use std::os::unix::ffi::OsStrExt;
+    let raw = unhex(a[0]);
+    let pb = std::path::PathBuf::from(std::ffi::OsStr::from_bytes(&raw));
+    let r = minicbor::to_vec(&pb);
+    let mut verdict = Ok(());
+    let valid = std::str::from_utf8(&raw).is_ok();
+    if valid != r.is_ok() { verdict = Err(if valid { "a UTF-8 path is refused".to_string() } else { "a path that is not UTF-8 is encoded (lossily) instead of refused".to_string() }) }
+    let r2 = minicbor::to_vec(pb.as_path());
+    let r3 = minicbor::to_vec(pb.clone().into_boxed_path());
+    if r.is_ok() != r2.is_ok() || r.is_ok() != r3.is_ok() || (r.is_ok() && (r.as_ref().ok() != r2.as_ref().ok() || r.as_ref().ok() != r3.as_ref().ok())) { verdict = Err("PathBuf, &Path and Box<Path> disagree".into()) }
+    if let Ok(b) = &r { if minicbor::decode::<std::path::PathBuf>(b).ok().as_ref() != Some(&pb) { verdict = Err("the path does not round-trip".into()) } }
+    with_oracle(r.map(|b| hex_or_dash(&b)).unwrap_or_else(|_| "refused".into()), verdict)
+}
+
 pub fn dt_handler(a: &[&str]) -> String {
     let inp = unhex(a[1]);
     let pos: usize = a.iter().skip(2).find(|t| !t.starts_with('=')).map(|p| p.parse().unwrap()).unwrap_or(0);
